@@ -6,7 +6,7 @@
    business of tools/props/c17.py (macro program = hand-inlined program on the implementation) and of reading. *)
 From Coq Require Import NArith ZArith List Bool String.
 From CA Require Import Model.Lexer Model.Parser Model.BigIntOps Model.Evaluator Model.Resolver Model.AsmBlock Model.UserFn
-  Spec.Inline Proofs.AsmBlockP Proofs.UserFnP Gen.Generated.
+  Spec.Inline Proofs.AsmBlockP Proofs.AsmBlockBudgetP Proofs.UserFnP Gen.Generated.
 Import ListNotations.
 Open Scope Z_scope.
 
@@ -146,4 +146,65 @@ Example C17_fn_nonvacuous :
   eval_at code_ops dummy_var ex_fns 0 (ECall (EVar 0 [t_of "cd"]) [ENum 24 None]) [] = EOk (VInt (un 24), []) /\
   eval_at code_ops dummy_var ex_fns 0 (ECall (EVar 0 [t_of "cd"]) [ENum 25 None]) [] = EErr /\
   eval_at code_ops dummy_var ex_fns 1 (ECall (EVar 0 [t_of "cd"]) [ENum 24 None]) [] = EErr.
+Proof. vm_compute. repeat split. Qed.
+
+(* ===== the budget and the inner loop of an asm block (C09 for asm blocks; eval_asm.rs as of /repo b4e61a4) ===== *)
+
+(* (a) no leak.  Whatever the rounds did: when the confirming round is not stable, the block's value is Unknown if the
+   enclosing pass may guess and an error if it may not; the latest estimate x never leaves the block. *)
+Theorem C17_block_no_leak : forall mr ao sub outer_last ns pos max ls ls1 x ls2,
+  rounds mr ao sub outer_last ns pos max 0 max ls = BOk ls1 ->
+  resolve_once mr ao sub false outer_last ns pos ls1 = BOk (x, true, ls2) ->
+  resolve_iteratively mr ao sub outer_last ns pos max ls = if outer_last then BErr else BOk VUnknown.
+Proof. exact no_leak. Qed.
+
+(* every success of the whole entry point is a fixed point of the confirming round (labels in = labels out) or Unknown
+   in a guessing pass *)
+Theorem C17_block_success_is_fixpoint_or_unknown : forall mr ao sub outer_last depth raw pos n v,
+  eval_asm mr ao sub outer_last depth raw pos n = BOk v ->
+  (exists V ns ls0 L, v = VInt V /\ prescan raw [] [] = EOk (ns, ls0) /\
+                      resolve_once mr ao sub false outer_last ns pos L = BOk (V, false, L))
+  \/ (v = VUnknown /\ outer_last = false).
+Proof. exact eval_asm_no_leak. Qed.
+
+(* (b) budget independence of a value: under mode agreement of the one-line resolver (what the strict mode settles on,
+   the guessing mode settles on too), a value obtained with round budget n is obtained with every larger budget *)
+Theorem C17_block_budget_monotone : forall mr ao sub outer_last,
+  (forall line pos ls enc, mr line pos ls false = EOk (Some enc) -> mr line pos ls true = EOk (Some enc)) ->
+  forall depth raw pos n n' V, (n <= n')%nat ->
+  eval_asm mr ao sub outer_last depth raw pos n = BOk (VInt V) ->
+  eval_asm mr ao sub outer_last depth raw pos n' = BOk (VInt V).
+Proof. exact eval_asm_budget_monotone. Qed.
+
+(* the hypothesis holds for Model/Resolver.v's resolver (match_instr + resolve_encoding over pvar, the block's labels
+   handed in through the variable provider), so for blocks over that resolver there is no hypothesis left *)
+Theorem C17_resolver_line_mode_agree : forall indexed defs names st line pos ls enc,
+  resolver_line indexed defs names st line pos ls false = EOk (Some enc) ->
+  resolver_line indexed defs names st line pos ls true = EOk (Some enc).
+Proof. exact resolver_line_mode_agree. Qed.
+
+Theorem C17_block_budget_monotone_resolver : forall indexed defs names st sub outer_last depth raw pos n n' V,
+  (n <= n')%nat ->
+  eval_asm (resolver_line indexed defs names st) address_at sub outer_last depth raw pos n = BOk (VInt V) ->
+  eval_asm (resolver_line indexed defs names st) address_at sub outer_last depth raw pos n' = BOk (VInt V).
+Proof. exact resolver_block_budget_monotone. Qed.
+
+(* REFUTED: "the outcome of a block in a guessing pass does not depend on the budget".  Values are budget independent
+   (above), but WHETHER a guessing pass gets a value or Unknown is not: the toy block yields Unknown with budget 0 and
+   its value with budget 10, with a line resolver that satisfies mode agreement.  This Unknown/value distinction is the
+   channel of the defect reproduced on the real code (a slowly settling block + an instruction with two consistent
+   encodings: success at -t 4, different bits at every larger budget); the whole-program extension of C09_monotone to
+   programs with asm blocks is therefore false of the code and is not stated. *)
+Theorem C17_block_guess_outcome_budget_independent_refuted :
+  exists mr ao sub depth raw pos n n' V,
+    (forall line p ls enc, mr line p ls false = EOk (Some enc) -> mr line p ls true = EOk (Some enc)) /\
+    (n <= n')%nat /\
+    eval_asm mr ao sub false depth raw pos n = BOk VUnknown /\
+    eval_asm mr ao sub false depth raw pos n' = BOk (VInt V).
+Proof. exact toy_block_outcome_depends_on_budget. Qed.
+
+Example C17_block_budget_nonvacuous :
+  eval_asm toy_resolve toy_address (fun t => EOk t) true 1 toy_block 16 2 = BOk (VInt (mk 0x040004 (Some 24%N))) /\
+  eval_asm toy_resolve toy_address (fun t => EOk t) true 1 toy_block 16 30 = BOk (VInt (mk 0x040004 (Some 24%N))) /\
+  eval_asm toy_resolve toy_address (fun t => EOk t) true 1 toy_block 16 1 = BErr.
 Proof. vm_compute. repeat split. Qed.
